@@ -34,7 +34,8 @@ from ndn.security.validator.known_key_validator import verify_ecdsa, verify_rsa
 from ._misc import drive, replay_with, tmpdir, where
 
 MODULE = 'bounded.c15'
-IDN = {'a': '/c15/alice', 'b': '/c15/bob'}
+# 'c': an identity whose own name contains a KEY component (a legal name; key and certificate names under it contain two)
+IDN = {'a': '/c15/alice', 'b': '/c15/bob', 'c': '/c15/KEY/carol'}
 GHOST_ID = '/c15/ghost'
 LOCATOR = '/c15/explicit/locator'
 
@@ -522,6 +523,15 @@ class Runner:
             def upd(ret):
                 self.adopt_new_keys(idm, expect=1, what=f'new_key({IDN[letter]})', kind=kind, returned=ret)
             return f'{verb}({IDN[letter]})', call, (None if idm is not None else KeyError), upd
+        if verb == 'newkey_dup':
+            # new_key with an explicit key id that names an EXISTING key: refused, and the existing key (its private key
+            # included - the audit signs with every listed key) is left as it was
+            km = default_key()
+            if km is None:
+                return None
+            kid = bytes(Name.from_bytes(km.name)[-1])
+            return (f'new_key({IDN[letter]}, key_id=<id of an existing key>)', (lambda: w.kc.new_key(idname, key_id=kid)),
+                    Exception, lambda ret: None)
         if verb == 'import':
             km = newest_key()
             if km is None:
@@ -949,7 +959,7 @@ def run_case(case):
 BASIC = ('touch:a', 'touch:b', 'newkey:a', 'newkey:b', 'idnewkey:a', 'import:a', 'import:b', 'setdef_id:a', 'setdef_id:b',
          'setdef_key:a', 'setdef_cert:a', 'delcert:a:default', 'delcert:a:other', 'keydelcert:a:other', 'delkey:a:default',
          'delkey:a:other', 'iddelkey:b:default', 'delid:a', 'delid:b', 'reopen',
-         'setdef_stale:a:id', 'setdef_stale:a:key', 'setdef_stale:a:cert')
+         'setdef_stale:a:id', 'setdef_stale:a:key', 'setdef_stale:a:cert', 'newkey_dup:a')
 SIGNS = ('sign:default', 'sign:id:a', 'sign:idobj:b', 'sign:key:a', 'sign:keyobj:a', 'sign:keyloc:a', 'sign:keyloc2', 'sign:cert:a',
          'sign:certobj:a', 'sign:certname:a', 'sign:deadcert', 'sign:digest', 'sign:nosig', 'sign:id:b', 'sign:key:b')
 ALPHABET = BASIC + SIGNS
@@ -969,6 +979,11 @@ DIRECTED = (
     ['touch:a', 'touch:b', 'setdef_id:b', 'reopen', 'sign:default', 'delid:b', 'sign:default'],
     ['touch:a', 'import:a', 'import:a', 'keydelcert:a:other', 'delcert:a:other', 'sign:cert:a'],
     ['newkey:a', 'touch:a', 'delid:a', 'newkey:a', 'touch:a'],
+    ['touch:c', 'sign:cert:c', 'sign:certobj:c', 'sign:certname:c', 'sign:key:c', 'sign:id:c'],
+    ['touch:a', 'touch:c', 'newkey:c', 'import:c', 'sign:cert:c', 'reopen', 'sign:certname:c', 'delkey:c:default', 'sign:id:c'],
+    ['touch:c', 'touch:a', 'sign:default', 'setdef_id:a', 'sign:cert:c', 'delid:c', 'sign:default'],
+    ['touch:a', 'newkey_dup:a', 'sign:key:a', 'reopen', 'sign:key:a', 'sign:id:a'],
+    ['touch:a', 'newkey:a', 'newkey_dup:a', 'reopen', 'sign:key:a', 'delkey:a:default', 'sign:id:a'],
     ['touch:a', 'touch:b', 'setdef_stale:a:id', 'sign:default', 'reopen', 'sign:default'],
     ['touch:a', 'newkey:a', 'setdef_stale:a:key', 'sign:id:a', 'reopen', 'sign:id:a'],
     ['touch:a', 'import:a', 'setdef_stale:a:cert', 'sign:key:a', 'reopen', 'sign:key:a'],
